@@ -250,7 +250,10 @@ CHECKS = {
              "pushes connect to gated targets (real rtmp.ServerSession on TCP), and API return codes, notifications, the "
              "connection attempts origin and targets saw, the attached push sessions, the length of the URL parameters "
              "that reach the target (300 / 1000 / 70000 bytes) and the stat listing after every step are decided by TLC.",
-        note="The auto-stop window is real time (700 ms; stalled scenarios are dropped as inconclusive). Push scenarios run in "
+        note="In three of four scenarios the API steps are JSON requests to lal's own HTTP-API server on loopback (explicit 0 / -1 "
+             "values; optional fields left out in a third of them where the model's value is the documented default), in the rest "
+             "direct ServerManager calls. In every second scenario a failing attempt fails after the handshake instead of before it. "
+             "The auto-stop window is real time (700 ms; stalled scenarios are dropped as inconclusive). Push scenarios run in "
              "child processes so that a panic in a goroutine lal owns is an observation (event Died). Push towards RTSP "
              "targets does not exist in lal; the push write timeout is not driven. An RTSP pull is attached by lal when the "
              "description arrives; the rest of its set-up (SETUP, PLAY) is part of the same model step (nothing is interleaved "
